@@ -165,7 +165,15 @@ def str_token(rng, feats, opts, allow_multiline):
                     raw += b'x'
                     val += b'x'
     raw.append(q)
-    return bytes(raw), bytes(val)
+    raw = bytes(raw)
+    # the expected value is what the reference grammar decodes from the spelling (a short numeric
+    # escape followed by a digit absorbs it), so expectation and spelling cannot drift apart
+    from . import reflex
+    try:
+        return raw, reflex.lex(raw)[0].value
+    except reflex.RefLexError:
+        # e.g. a short decimal escape that, with the digit that happens to follow, exceeds 255
+        return b'"x"', b'x'
 
 
 class Gen:
@@ -704,7 +712,9 @@ class Gen:
         cond = (self.exp(min(d, 1)))
         self.sym(b')')
         pairs = [(cond, self.linestats(d))]
-        if rng.random() < 0.3:
+        last = pairs[0][1][1][-1]
+        dangling = last[0] == 'StatIf' and last[2]   # an `else` here would belong to the nested short-if
+        if rng.random() < 0.3 and not dangling:
             self.kw(b'else')
             pairs.append((None, self.linestats(d)))
             self.p.feats.add('shortif-else')
